@@ -577,6 +577,11 @@ let run_a args =
     let (rs, ry) = bits rbits in
     let a = { d_send = true; d_sync = true; r_send = rs; r_sync = ry } in
     verdict (constructible ctor_resolver_bounds a)
+  | ["text"; _i; ibits; _w; wbits; _tr] ->
+    (* a borrowed view: Send and Sync alike need the node handle and the borrowed resolver type to be Sync *)
+    let (ds, dy) = bits wbits and (_, iy) = bits ibits in
+    let a = { d_send = ds; d_sync = dy; r_send = true; r_sync = true } in
+    verdict (view_ok node_sync_bounds a iy && other_marker_impls = O)
   | ["green"; _t; _tr] -> verdict green_token_unconditional
   | _ -> "BAD-CASE"
 
